@@ -73,7 +73,10 @@ def gen_string(rng):
   pieces = [gen_string_piece(rng, is_bytes) for _ in range(n)]
   out = pieces[0]
   for p in pieces[1:]:
-    out += rng.choice([' ', '  ', '\t', '']) + p
+    sep = rng.choice([' ', '  ', '\t', ''])
+    if sep == '' and p[0] == out[-1]:
+      sep = ' '    # `""` + `"'"` written without a blank is the opening of a triple-quoted string, not two pieces
+    out += sep + p
   del sep
   return out
 
